@@ -93,6 +93,7 @@ type Frame struct {
 	defers []deferred
 	caller *Frame
 	pos    token.Pos
+	loops  map[*ssa.BasicBlock]int
 }
 
 type deferred struct {
@@ -158,9 +159,9 @@ type crcMessage struct {
 }
 
 type crcApp struct {
-	t   *Term // the crc value term (uf application or constant)
-	arg *Term // message as one bit-vector (nil for huge)
-	n   int   // message length in bytes
+	t *Term // the crc value term (uf application or constant)
+	m crcMessage
+	n int // message length in bytes
 }
 
 func (ex *Exec) fresh(prefix string, w int) *Term {
@@ -735,8 +736,12 @@ func (ex *Exec) run(fr *Frame, b *ssa.BasicBlock) Value {
 			}
 		}
 		if len(b.Preds) > 1 {
-			ex.loopCnt[b]++
-			if ex.loopCnt[b] > ex.eng.loopCap {
+			// unwinding assertion: visits of one loop head within one activation of the function
+			if fr.loops == nil {
+				fr.loops = map[*ssa.BasicBlock]int{}
+			}
+			fr.loops[b]++
+			if fr.loops[b] > ex.eng.loopCap {
 				panic(pathAbort{why: "unwind limit at " + fr.fn.String(), incomplete: true})
 			}
 		}
@@ -884,12 +889,8 @@ func (ex *Exec) makeSlice(fr *Frame, x *ssa.MakeSlice) Value {
 	ln := ex.get(fr, x.Len).(*Term)
 	cp := ex.get(fr, x.Cap).(*Term)
 	p := ex.pool
-	if ln.w != 64 {
-		ln = p.SExt(ln, 64)
-	}
-	if cp.w != 64 {
-		cp = p.SExt(cp, 64)
-	}
+	ln = ex.ext64(ln, x.Len.Type())
+	cp = ex.ext64(cp, x.Cap.Type())
 	ok := p.And(p.Bin("bvsle", p.BV(64, 0), ln), p.Bin("bvsle", ln, cp))
 	ex.require(ok, "makeslice: len out of range")
 	l, c := ex.concretise(ln, "make len"), ex.concretise(cp, "make cap")
@@ -1112,7 +1113,7 @@ func (ex *Exec) lookup(fr *Frame, x *ssa.Lookup) Value {
 		}
 		return found
 	case *StringV:
-		idx := ex.get(fr, x.Index).(*Term)
+		idx := ex.ext64(ex.get(fr, x.Index).(*Term), x.Index.Type())
 		i := ex.checkedIndex(idx, len(m.b))
 		return m.b[i]
 	}
@@ -1120,10 +1121,21 @@ func (ex *Exec) lookup(fr *Frame, x *ssa.Lookup) Value {
 }
 
 // checkedIndex asserts 0 <= idx < n and returns a concrete index (forking if symbolic).
+// ext64 widens an integer to 64 bits according to the signedness of its Go type.
+func (ex *Exec) ext64(t *Term, typ types.Type) *Term {
+	if t.w == 64 {
+		return t
+	}
+	if isSigned(typ) {
+		return ex.pool.SExt(t, 64)
+	}
+	return ex.pool.ZExt(t, 64)
+}
+
 func (ex *Exec) checkedIndex(idx *Term, n int) int {
 	p := ex.pool
 	if idx.w != 64 {
-		idx = p.SExt(idx, 64)
+		panic("checkedIndex: index not widened")
 	}
 	inb := p.And(p.Bin("bvsle", p.BV(64, 0), idx), p.Bin("bvslt", idx, p.BV(64, uint64(n))))
 	ex.require(inb, fmt.Sprintf("index out of range [..] with length %d", n))
@@ -1327,7 +1339,7 @@ func (ex *Exec) cellsOf(base Value) (arr *ArrayV, off, n int, isNil bool) {
 
 func (ex *Exec) indexAddr(fr *Frame, x *ssa.IndexAddr) Value {
 	base := ex.get(fr, x.X)
-	idx := ex.get(fr, x.Index).(*Term)
+	idx := ex.ext64(ex.get(fr, x.Index).(*Term), x.Index.Type())
 	arr, off, n, isNil := ex.cellsOf(base)
 	if isNil {
 		ex.rtPanic("invalid memory address or nil pointer dereference")
@@ -1338,7 +1350,7 @@ func (ex *Exec) indexAddr(fr *Frame, x *ssa.IndexAddr) Value {
 
 func (ex *Exec) index(fr *Frame, x *ssa.Index) Value {
 	base := ex.get(fr, x.X)
-	idx := ex.get(fr, x.Index).(*Term)
+	idx := ex.ext64(ex.get(fr, x.Index).(*Term), x.Index.Type())
 	switch s := base.(type) {
 	case *ArrayV:
 		i := ex.checkedIndex(idx, len(s.e))
@@ -1357,11 +1369,7 @@ func (ex *Exec) slice(fr *Frame, x *ssa.Slice) Value {
 		if v == nil {
 			return p.BV(64, uint64(def))
 		}
-		t := ex.get(fr, v).(*Term)
-		if t.w != 64 {
-			t = p.SExt(t, 64)
-		}
-		return t
+		return ex.ext64(ex.get(fr, v).(*Term), v.Type())
 	}
 	if s, ok := base.(*StringV); ok {
 		lo, hi := getb(x.Low, 0), getb(x.High, len(s.b))
